@@ -2153,6 +2153,37 @@ func ruleObserversPure(c *Ctx, r *Report, pkgs map[string]bool) int {
 				}
 			}
 		}
+		// … nor through a method it calls on the same receiver (a lookup helper that remembers where it was)
+		if bad == "" {
+			for _, b := range f.Blocks {
+				for _, ins := range b.Instrs {
+					call, ok := ins.(*ssa.Call)
+					if !ok {
+						continue
+					}
+					h := call.Call.StaticCallee()
+					if h == nil || h.Signature.Recv() == nil || len(call.Call.Args) == 0 || call.Call.Args[0] != ssa.Value(recv) {
+						continue
+					}
+					if _, isPtr := h.Signature.Recv().Type().Underlying().(*types.Pointer); !isPtr {
+						continue
+					}
+					if _, accepted := impureObservers[SSAFuncName(h)]; accepted {
+						continue
+					}
+					st := recvFieldStores(h, 0, map[*ssa.Function]bool{})
+					if len(st) > 0 {
+						var flds []string
+						for k := range st {
+							flds = append(flds, k)
+						}
+						sort.Strings(flds)
+						bad = "calls " + h.Name() + ", which stores into " + strings.Join(flds, ", ") + " of the receiver"
+						pos = call.Pos()
+					}
+				}
+			}
+		}
 		if why, ok := impureObservers[key]; ok && bad != "" {
 			r.OK("R3-OBS", key, c.Pos(pos), "accepted: "+why)
 			continue
